@@ -267,6 +267,26 @@ def search(ctx):
         if not (np.abs(Rd - R).max() <= 1e-11):
             ctx.violation("C19:degrees", "degrees form differs from radians form",
                           dict(kind="rotation", angles=ang, R=Rd.tolist()))
+        # call histories: what a caller does with a matrix it was handed (flip an axis, divide by the pixel size -- in place)
+        # and the objects it passed as angles do not change what a later request for the same angles returns
+        if i % 4 == 0:
+            ctx.tried("rotation-history", tuple(np.round(ang, 6)))
+            R1 = hm.rotation_matrix(*ang)
+            R1[2] *= -1
+            R1 /= 3.0
+            R2 = hm.rotation_matrix(*ang)
+            ptsh = rng.normal(size=(3, 3))
+            rph = hm.rotate_points(ptsh, *ang)
+            if not (np.abs(R2 - ref).max() <= 1e-12) or not (np.abs(rph - ptsh @ ref.T).max() <= 1e-11):
+                ctx.violation("C19:zyz:after-caller-edit", "after a caller edited in place the matrix it had been returned, rotation_matrix / rotate_points for the same angles no longer give Rz(gamma) Ry(beta) Rz(alpha) (max dev %.3g)" % float(np.abs(R2 - ref).max()),
+                              dict(kind="rotation-history", angles=ang, R=R2.tolist()))
+            degs = [np.array(v) for v in np.degrees(ang)]       # 0-d arrays, as np.degrees / an indexing expression hands them out
+            keep = [float(v) for v in degs]
+            Rd1 = hm.rotation_matrix(*degs, radians=False)
+            Rd2 = hm.rotation_matrix(*degs, radians=False)
+            if [float(v) for v in degs] != keep or not (np.abs(Rd2 - ref).max() <= 1e-11) or not (np.abs(Rd1 - ref).max() <= 1e-11):
+                ctx.violation("C19:degrees:repeated", "rotation_matrix(..., radians=False) with angles given as 0-d arrays: the caller's angles are %r after the call (were %r) and a second identical call deviates from the documented matrix by %.3g" % (
+                    [float(v) for v in degs], keep, float(np.abs(Rd2 - ref).max())), dict(kind="rotation-history", angles=ang, degrees=keep))
         pts = rng.normal(size=(4, 3)) * 3
         rp = hm.rotate_points(pts, *ang)
         d0 = np.linalg.norm(pts[:, None] - pts[None], axis=-1)
